@@ -90,14 +90,6 @@ func f11Trigger(data []byte) bool {
 	return false
 }
 
-func kindsOf(h history) string {
-	var ks []string
-	for _, r := range h {
-		ks = append(ks, r.K[:1])
-	}
-	return strings.Join(ks, "")
-}
-
 // lastOp returns the last operation other than keep on object n.
 func lastOp(h history, n int) string {
 	op := "none"
@@ -113,12 +105,20 @@ func lastOp(h history, n int) string {
 }
 
 // histKey names the failure class of a rejected history record.
-func histKey(rec histRecord, data []byte, expect func(n, g int) int) string {
-	if f11Trigger(data) {
-		return "xref-table/subsection-starts-at-1/first-entry-free-65535-next-0"
+func histKey(rec histRecord, res *ser.Result, b *built, expect func(n, g int) int) string {
+	// attributed to the offByOne tolerance only if the lookups are what fails
+	// (not the trailer) and a reader with that tolerance answers exactly so
+	lookupFails := !rec.Open
+	for _, p := range rec.Probes {
+		if expect(p[0], p[1]) != p[2] {
+			lookupFails = true
+		}
+	}
+	if lookupFails && (!rec.Open || rec.Trailer == len(rec.H)) && f11Trigger(res.Bytes) && explainedByOffByOne(rec, res, b) {
+		return "xref-table/subsection-starts-at-1/first-entry-free-65535-next-0/taken-for-misnumbered-table"
 	}
 	if !rec.Open {
-		return "open-error/kinds=" + kindsOf(rec.H)
+		return "open-error/newest=" + rec.H[len(rec.H)-1].K
 	}
 	for _, p := range rec.Probes {
 		want := expect(p[0], p[1])
@@ -136,10 +136,10 @@ func histKey(rec histRecord, data []byte, expect func(n, g int) int) string {
 			if want == 0 {
 				w = "null"
 			}
-			return fmt.Sprintf("lookup/kinds=%s/last-op=%s/want=%s/got=%s", kindsOf(rec.H), lastOp(rec.H, p[0]), w, got)
+			return fmt.Sprintf("lookup/newest=%s/last-op=%s/want=%s/got=%s", rec.H[len(rec.H)-1].K, lastOp(rec.H, p[0]), w, got)
 		}
 	}
-	return "trailer/kinds=" + kindsOf(rec.H)
+	return "trailer/newest=" + rec.H[len(rec.H)-1].K
 }
 
 // simulate is the harness's own reading of the history, used only to
@@ -408,7 +408,7 @@ func reportHist(ctx *core.Ctx, c histCase, seenKey map[string]int) {
 		return
 	}
 	exp := simulate(c.H)
-	key := histKey(rec, res.Bytes, exp)
+	key := histKey(rec, res, concretise(c.H, rand.New(rand.NewSource(c.CSeed))), exp)
 	if seenKey != nil {
 		seenKey[key]++
 		if seenKey[key] > 1 {
@@ -594,11 +594,18 @@ func isWS(b byte) bool { return b == 0 || b == 9 || b == 10 || b == 12 || b == 1
 
 func lenKey(c lenCase, rec lenRecord) string {
 	if rec.LK == "null" {
-		// resolve.go asInteger turns the null object into 0
-		if rec.Open && rec.Got == 0 {
+		// resolve.go asInteger turns the null object into 0, and 0 is trusted
+		// when only white space or the text "endstream" follows
+		i := 0
+		for i < len(c.Body) && isWS(c.Body[i]) {
+			i++
+		}
+		if i == len(c.Body) && rec.Open && rec.Got == 0 {
 			return "stream-length/indirect-length-is-null/taken-as-0/white-space-body-dropped"
 		}
-		return "stream-length/indirect-length-is-null/taken-as-0/body-starts-with-endstream"
+		if bytes.HasPrefix(c.Body[i:], []byte("endstream")) && rec.Got < 0 {
+			return "stream-length/indirect-length-is-null/taken-as-0/body-starts-with-endstream"
+		}
 	}
 	if rec.Declared >= 0 && rec.Declared < len(c.Body) && rec.Got == rec.Declared {
 		all := true
